@@ -28,7 +28,10 @@ RULE = ("Hypothesis builds a pair model (1..4 potentials over 1..4 species, defi
         "and table forms, either species order), a cutoff (round and non-round, 0.5..20) and a row count (3..60, "
         "thorough to 5000) and a route (API classes, writePotentials, potable text; CLI sampled separately). The "
         "written file is parsed independently and every row's index and separation, and the energy/force of all "
-        "rows (<= 40 rows) or of 40 spread rows are compared with reference jets. Non-trivial = some block has "
+        "rows (<= 40 rows) or of 40 spread rows are compared with reference jets. "
+        "Strata add: [Tabulation] items left out (documented defaults), and one tabulation object written 2..3 times "
+        "while a stateful energy callable is re-parametrised in between (each file must follow the current function). "
+        "A quarter of the definitions of a model are near-copies of an earlier one (gen.vary). Non-trivial = some block has "
         "curvature with max|F| > 1e-3 and nr >= 5; distinct = distinct canonical JSON.")
 ASSUMPTIONS = [
     "block titles are accepted in either species order (code writes A-B as declared, the docstring promises sorted)",
